@@ -11,6 +11,7 @@ CONSTANTS
   Tmo = {0}
   Horizon = 100000000
   AllowFaults = TRUE
+  OpenGarbage = TRUE
   AdapterErrors = TRUE
   AllowCancel = TRUE
   AllowStall = TRUE
